@@ -896,7 +896,7 @@ nnls_normal_block3(cholmod_sparse *AtA, cholmod_dense *Atb, int verbose,
                  */
                 if (nH1 > 0)
                         for (i = 0, j = 0; i < nH2; ) {
-                                while((H1[j] < H2[i]) && (j < nH1)) j++;
+                                while((j < nH1) && (H1[j] < H2[i])) j++;
                                 if ((j < nH1) && (H2[i] == H1[j])) {
                                         /* Remove the element from both */
                                         for (k = j; k+1 < nH1; k++)
